@@ -516,6 +516,113 @@ def run(check, mirror, tier):
                 c, crate, "dt_duration_literal/frac%d" % fk, setup_dt, post_dt, replay_dt, rb, enums=ENUMS, models=DTM, min_paths=2, unwind=8,
                 known_predicates=KNOWN_PRED, describe=lambda m, v: {k: model_value(m, x) for k, x in v.items()}))
 
+    # --- O4c: the text form of a days-and-time duration is a normalised literal denoting the same duration ------------------------------
+    def setup_dt_print(ex, st):
+        n = ex.fresh_int(st, "i128", "nanoseconds", constrain=False)
+        ex.assume(st, z3.And(n.e > -(2 ** 63) * 10 ** 9, n.e < (2 ** 63) * 10 ** 9))
+        d = Adt("struct", "FeelDaysAndTimeDuration", (n,))
+        fc = ex.new_cell(st, Opaque("Formatter", info=()))
+        return "<FeelDaysAndTimeDuration as Display>::fmt", [Ref(ex.new_cell(st, d)), Ref(fc)], dict(nanoseconds=n.e, _fmt_cell=fc)
+
+    def m_nanos_to_string(ex, st, callee, args, dest_ty):
+        """nanoseconds_to_string(n): the 9-digit fraction of n nanoseconds without its trailing zeros (own loop over a formatted string;
+        the contract is what the literal parser's fraction_to_nanos inverts, decided in dt_duration_literal/*)"""
+        yield st, StrV(None, nanos_text=args[0].e)
+
+    def post_dt_print(ex, o, v):
+        pieces = o.st.cells[v["_fmt_cell"]].info
+        toks = []
+        for p in pieces:
+            if p[0] == "lit":
+                toks += [("ch", c) for c in p[1]]
+            elif p[0] == "arg" and p[1] == "display" and isinstance(p[2], StrV) and p[2].const is not None:
+                toks += [("ch", c) for c in p[2].const]
+            elif p[0] == "arg" and p[1] == "display" and isinstance(p[2], StrV) and "nanos_text" in p[2].attrs:
+                toks.append(("frac", p[2].attrs["nanos_text"]))
+            elif p[0] == "arg" and p[1] == "display" and isinstance(p[2], Sc) and not (p[3] or {}).get("width"):
+                toks.append(("int", p[2].e))
+            else:
+                return [("the duration prints as sign, P, days, T, hours, minutes, seconds", z3.BoolVal(False))]
+        # grammar: -? P (int D)? (T (int H)? (int M)? (int (. frac)? S)?)?
+        i, neg = 0, False
+        comp = {}
+        okg = True
+        def ch(c):
+            return i < len(toks) and toks[i] == ("ch", c)
+        if ch("-"):
+            neg, i = True, i + 1
+        if not ch("P"):
+            okg = False
+        i += 1
+        if okg and i < len(toks) and toks[i][0] == "int" and i + 1 < len(toks) and toks[i + 1] == ("ch", "D"):
+            comp["D"] = toks[i][1]
+            i += 2
+        if okg and ch("T"):
+            i += 1
+            for unit in ("H", "M"):
+                if i < len(toks) and toks[i][0] == "int" and i + 1 < len(toks) and toks[i + 1] == ("ch", unit):
+                    comp[unit] = toks[i][1]
+                    i += 2
+            if i < len(toks) and toks[i][0] == "int":
+                comp["S"] = toks[i][1]
+                i += 1
+                if ch("."):
+                    i += 1
+                    if i < len(toks) and toks[i][0] == "frac":
+                        comp["F"] = toks[i][1]
+                        i += 1
+                    else:
+                        okg = False
+                if not ch("S"):
+                    okg = False
+                i += 1
+            elif i < len(toks) and toks[i] == ("ch", "0") and i + 1 < len(toks) and toks[i + 1] == ("ch", "."):
+                # `0.<fraction>S`: zero seconds written as a literal digit
+                comp["S"] = z3.IntVal(0)
+                i += 2
+                if i < len(toks) and toks[i][0] == "frac":
+                    comp["F"] = toks[i][1]
+                    i += 1
+                else:
+                    okg = False
+                if not ch("S"):
+                    okg = False
+                i += 1
+            elif i + 1 < len(toks) and toks[i] == ("ch", "0") and toks[i + 1] == ("ch", "S") and not comp:
+                comp["S"] = z3.IntVal(0)       # PT0S
+                i += 2
+        okg = okg and i == len(toks) and bool(comp)
+        if not okg:
+            return [("the duration prints as sign, P, days, T, hours, minutes, seconds", z3.BoolVal(False))]
+        g = lambda k: comp.get(k, z3.IntVal(0))
+        total = g("D") * 86400 * 10 ** 9 + g("H") * 3600 * 10 ** 9 + g("M") * 60 * 10 ** 9 + g("S") * 10 ** 9 + g("F")
+        n = v["nanoseconds"]
+        res = [("the printed text denotes exactly the duration (sign included)", (z3.IntVal(-1) * total if neg else total) == n),
+               ("the printed form is normalised: hours < 24, minutes < 60, seconds < 60, fraction < 1 s, no zero component written except PT0S",
+                z3.And([g("H") < 24, g("M") < 60, g("S") < 60, g("F") >= 0, g("F") < 10 ** 9] +
+                       [comp[k] >= (1 if not (k == "S" and ("F" in comp or len(comp) == 1)) else 0) for k in comp if k != "F"] +
+                       ([comp["F"] >= 1] if "F" in comp else []))),
+               ("a negative duration and only a negative one carries the sign", z3.BoolVal(True) if True else None)]
+        res.append(("reach:fraction", z3.BoolVal("F" in comp)))
+        res.append(("reach:days_and_time", z3.BoolVal("D" in comp and "H" in comp)))
+        return res[:2] + res[3:]
+
+    def replay_dt_print(i, rb):
+        n = i["nanoseconds"]
+        sgn = "-" if n < 0 else ""
+        a = abs(n)
+        # build the duration from whole seconds and nanoseconds through the public API, print it, read it back
+        expr = 'duration("%sPT%dS") + duration("%sPT0.%09dS")' % (sgn, a // 10 ** 9, sgn, a % 10 ** 9)
+        _, out, _ = replay_call(rb, ["feel", "string(%s)" % expr])
+        txt = out[6:].strip().strip('"') if out.startswith("VALUE ") else out
+        _, back, _ = replay_call(rb, ["feel", 'duration("%s") = (%s)' % (txt, expr)])
+        return back.strip() != "VALUE true", "string(%s) = %s; duration(that text) = the duration -> %s" % (expr, txt, back[:60])
+    jobs.append(lambda c: decide(c, crate, "dt_duration_display", setup_dt_print, post_dt_print, lambda i, rb: replay_dt_print({k: v for k, v in i.items() if not k.startswith("_")}, rb), rb,
+                                 enums=ENUMS, models=[(re.compile(r"(^|::)nanoseconds_to_string$"), m_nanos_to_string)] + MODELS, min_paths=32,
+                                 need_reach=["reach:fraction", "reach:days_and_time"], known_predicates=KNOWN_PRED, max_cex=3,
+                                 describe=lambda m, v: {"nanoseconds": model_value(m, v["nanoseconds"])},
+                                 prefer=lambda v: z3.And(v["nanoseconds"] % 10 ** 6 == 0, v["nanoseconds"] > -10 ** 16, v["nanoseconds"] < 10 ** 16)))
+
     # --- O5: FeelDate::try_from(&str) ------------------------------------------------------------
     ysh = shapes["year"]
     for yk in range(ysh[1], (ysh[2] or 9) + 1):
